@@ -39,7 +39,9 @@ pub struct FCell {
     pub expr: Expr,
     pub blanks: Vec<u8>,
     /// 0 ordinary `set_formula` cell; 1 shared-formula CHILD (type shared, the text lives in
-    /// `text_view` as after loading a file); 2 shared-formula MASTER (type shared, `text`)
+    /// `text_view` as after loading a file); 2 shared-formula MASTER (type shared, `text`);
+    /// 3 non-first MEMBER that carries its own text AND the derived view (what the reader
+    /// makes of `<f t="shared" si="..">text</f>` on a non-first cell)
     #[serde(default)]
     pub shared: u8,
 }
@@ -83,6 +85,11 @@ pub struct Case {
     /// these sheets (monotone picks, possibly none) are materialised before the history
     #[serde(default)]
     pub lazy: Option<Vec<u16>>,
+    /// reloaded stratum: build -> save -> eager reload -> history; every shared cell becomes a
+    /// real group (master + a member one row below) so that the READER decides what a member
+    /// holds in text / text_view
+    #[serde(default)]
+    pub reload: bool,
 }
 
 // ---------------------------------------------------------------------------------------
@@ -130,7 +137,7 @@ fn op_raw() -> BoxedStrategy<OpRaw> {
 }
 
 fn fcell() -> BoxedStrategy<FCell> {
-    (any::<u16>(), (1u8..=8, 1u8..=8), expr(), blank_plan(), prop_oneof![5 => Just(0u8), 4 => Just(1u8), 1 => Just(2u8)])
+    (any::<u16>(), (1u8..=8, 1u8..=8), expr(), blank_plan(), prop_oneof![5 => Just(0u8), 3 => Just(1u8), 1 => Just(2u8), 3 => Just(3u8)])
         .prop_map(|(host, at, expr, blanks, shared)| FCell { host, at, expr, blanks, shared })
         .boxed()
 }
@@ -187,7 +194,7 @@ fn case_strategy(clean: bool, n_cells: (usize, usize), n_names: (usize, usize), 
                     }
                 }
             }
-            Case { clean, sheets, cells, names, series, ops, lazy }
+            Case { clean, sheets, cells, names, series, ops, lazy, reload: false }
         })
         .boxed()
 }
@@ -205,6 +212,14 @@ fn lazy_cases(_t: Tier) -> BoxedStrategy<Case> {
     (case_strategy(true, (1, 3), (0, 2), (0, 0)), prop::collection::vec(any::<u16>(), 0..=2))
         .prop_map(|(mut c, l)| {
             c.lazy = Some(l);
+            c
+        })
+        .boxed()
+}
+fn reloaded_cases(_t: Tier) -> BoxedStrategy<Case> {
+    case_strategy(true, (1, 3), (0, 1), (0, 0))
+        .prop_map(|mut c| {
+            c.reload = true;
             c
         })
         .boxed()
@@ -250,8 +265,12 @@ pub struct Resolved {
     pub sheets: Vec<String>,
     /// (host, at, expr, blanks)
     pub cells: Vec<(usize, (u32, u32), Expr, Vec<u8>)>,
-    /// per cell: 0 ordinary, 1 shared-formula child, 2 shared-formula master
+    /// per cell: 0 ordinary, 1 shared child (view only), 2 shared master, 3 member with own
+    /// text + view; reloaded stratum: 5 group member written with its own text, 6 written empty
     pub shared: Vec<u8>,
+    /// shared index per cell (members of a group carry their master's)
+    pub group: Vec<u32>,
+    pub reload: bool,
     /// (holder sheet or WORKBOOK, parts)
     pub names: Vec<(usize, Vec<(usize, Area)>)>,
     pub series: Vec<(usize, Vec<(usize, Area)>)>,
@@ -387,6 +406,7 @@ pub fn resolve(c: &Case) -> Resolved {
     // formula cells: distinct (host, at)
     let mut cells: Vec<(usize, (u32, u32), Expr, Vec<u8>)> = Vec::new();
     let mut shared: Vec<u8> = Vec::new();
+    let mut group: Vec<u32> = Vec::new();
     for f in &c.cells {
         let host = pick_idx(f.host, n);
         let at = (f.at.0 as u32, f.at.1 as u32);
@@ -403,9 +423,26 @@ pub fn resolve(c: &Case) -> Resolved {
                 o => o,
             });
         }
-        cells.push((host, at, e, f.blanks.clone()));
         // the lazy stratum saves the workbook: ordinary cells only there
-        shared.push(if c.lazy.is_some() { 0 } else { f.shared.min(2) });
+        let kind = if c.lazy.is_some() { 0 } else { f.shared.min(3) };
+        let si = cells.len() as u32;
+        if c.reload && kind != 0 {
+            // a real group: master here, a member one row below standing for the master's
+            // text moved by one row (written with that text for kinds 2/3, empty for kind 1)
+            let member = translate_expr(&e, 0, 1);
+            cells.push((host, at, e, f.blanks.clone()));
+            shared.push(2);
+            group.push(si);
+            if let Some(m) = member {
+                cells.push((host, (at.0, at.1 + 1), m, f.blanks.clone()));
+                shared.push(if kind == 1 { 6 } else { 5 });
+                group.push(si);
+            }
+        } else {
+            cells.push((host, at, e, f.blanks.clone()));
+            shared.push(if c.reload { 0 } else { kind });
+            group.push(si);
+        }
     }
     let part = |p: &(u16, Area)| (pick_idx(p.0, n), p.1.clone());
     let mut names: Vec<(usize, Vec<(usize, Area)>)> = Vec::new();
@@ -446,19 +483,30 @@ pub fn resolve(c: &Case) -> Resolved {
     // put every formula cell where no removal deletes it, whether the edits of other sheets
     // physically reach its sheet (R5) or not; the position is irrelevant to its references
     let mut taken: Vec<(usize, (u32, u32))> = Vec::new();
-    for cell in cells.iter_mut() {
+    let has_member: Vec<bool> = (0..cells.len()).map(|i| shared.get(i + 1).map_or(false, |k| *k >= 5)).collect();
+    let mut prev_pos = (0u32, 0u32);
+    for (ci, cell) in cells.iter_mut().enumerate() {
         let host = cell.0;
+        if shared[ci] >= 5 {
+            // group member: one row below its master
+            cell.1 = (prev_pos.0, prev_pos.1 + 1);
+            taken.push((host, cell.1));
+            continue;
+        }
         let own: Vec<Edit> = edits.iter().filter(|(s, _)| *s == host).map(|(_, e)| *e).collect();
         let all: Vec<Edit> = edits.iter().map(|(_, e)| *e).collect();
         let mut pos = cell.1;
         for k in 0..80u32 {
             let cand = (cell.1 .0 + k * 7, cell.1 .1 + k * 11);
-            if survives(cand, &own) && survives(cand, &all) && !taken.contains(&(host, cand)) {
+            let below = (cand.0, cand.1 + 1);
+            let room = !has_member[ci] || (survives(below, &own) && survives(below, &all) && !taken.contains(&(host, below)));
+            if survives(cand, &own) && survives(cand, &all) && !taken.contains(&(host, cand)) && room {
                 pos = cand;
                 break;
             }
         }
         cell.1 = pos;
+        prev_pos = pos;
         taken.push((host, pos));
     }
     let lazy = c.lazy.as_ref().map(|v| {
@@ -467,7 +515,7 @@ pub fn resolve(c: &Case) -> Resolved {
         l.dedup();
         l
     });
-    Resolved { sheets, cells, shared, names, series, edits, excluded, lazy }
+    Resolved { sheets, cells, shared, group, reload: c.reload, names, series, edits, excluded, lazy }
 }
 
 // ---------------------------------------------------------------------------------------
@@ -539,11 +587,19 @@ pub fn run_workbook(r: &Resolved, texts: &[String]) -> Result<Observed, PanicInf
                 kind => {
                     let mut cf = umya_spreadsheet::structs::CellFormula::default();
                     cf.set_formula_type(umya_spreadsheet::structs::CellFormulaValues::Shared);
-                    cf.set_shared_index(i as u32);
-                    if kind == 1 {
-                        cf.set_text_view(texts[i].clone());
-                    } else {
-                        cf.set_text(texts[i].clone());
+                    cf.set_shared_index(r.group.get(i).copied().unwrap_or(i as u32));
+                    match kind {
+                        1 => {
+                            cf.set_text_view(texts[i].clone());
+                        }
+                        3 => {
+                            cf.set_text(texts[i].clone());
+                            cf.set_text_view(texts[i].clone());
+                        }
+                        6 => {}
+                        _ => {
+                            cf.set_text(texts[i].clone());
+                        }
                     }
                     cell.get_cell_value_mut().set_formula_obj(cf);
                 }
@@ -575,14 +631,16 @@ pub fn run_workbook(r: &Resolved, texts: &[String]) -> Result<Observed, PanicInf
             book.get_sheet_mut(holder).unwrap().add_chart(chart);
         }
         let mut obs = Observed::default();
-        if let Some(materialise) = &r.lazy {
+        if r.lazy.is_some() || r.reload {
+            let materialise = r.lazy.clone().unwrap_or_default();
+            let with_sheets = r.reload;
             // save, reload eagerly for the baseline, reload lazily for the run; a failure of
             // this set-up (save / load defects) is not this property's subject
             let saved = guard(|| {
                 let mut bytes: Vec<u8> = Vec::new();
                 umya_spreadsheet::writer::xlsx::write_writer(&book, &mut bytes).map_err(|e| format!("save: {:?}", e))?;
                 let eager = umya_spreadsheet::reader::xlsx::read_reader(std::io::Cursor::new(bytes.clone()), true).map_err(|e| format!("reload: {:?}", e))?;
-                let lazy = umya_spreadsheet::reader::xlsx::read_reader(std::io::Cursor::new(bytes), false).map_err(|e| format!("lazy reload: {:?}", e))?;
+                let lazy = umya_spreadsheet::reader::xlsx::read_reader(std::io::Cursor::new(bytes), with_sheets).map_err(|e| format!("lazy reload: {:?}", e))?;
                 Ok::<_, String>((eager, lazy))
             });
             let (mut eager, lazy_book) = match saved {
@@ -606,7 +664,7 @@ pub fn run_workbook(r: &Resolved, texts: &[String]) -> Result<Observed, PanicInf
                 obs.series0.push(read_series(&mut eager, *holder));
             }
             book = lazy_book;
-            for k in materialise {
+            for k in &materialise {
                 book.read_sheet(*k);
             }
         } else {
@@ -667,7 +725,7 @@ fn attempt_cell(r: &Resolved, sh: u8, host: usize, at: (u32, u32), e: &Expr, bla
     let own = r.edits_on(host);
     let all: Vec<Edit> = r.edits.iter().map(|(_, e)| *e).collect();
     let at = (0..200u32).map(|k| (at.0 + k * 7, at.1 + k * 11)).find(|c| survives(*c, &own) && survives(*c, &all)).unwrap_or(at);
-    let single = Resolved { sheets: r.sheets.clone(), cells: vec![(host, at, e.clone(), blanks.to_vec())], shared: vec![sh], names: vec![], series: vec![], edits: r.edits.clone(), excluded: vec![], lazy: None };
+    let single = Resolved { sheets: r.sheets.clone(), cells: vec![(host, at, e.clone(), blanks.to_vec())], shared: vec![sh], group: vec![0], reload: false, names: vec![], series: vec![], edits: r.edits.clone(), excluded: vec![], lazy: None };
     let lib = run_workbook(&single, &[text.clone()]).map(|o| match &o.cells[0] {
         Some(s) => Ok(s.clone()),
         None => Err("formula cell deleted by the history".to_string()),
@@ -867,7 +925,7 @@ fn panic_part(r: &Resolved, kind: &str, holder: Option<usize>, parts: &[(usize, 
 
 /// a defined name alone (classifier)
 fn attempt_name(r: &Resolved, holder: usize, parts: &[(usize, Area)]) -> Option<(String, String)> {
-    let single = Resolved { sheets: r.sheets.clone(), cells: vec![], shared: vec![], names: vec![(holder, parts.to_vec())], series: vec![], edits: r.edits.clone(), excluded: vec![], lazy: None };
+    let single = Resolved { sheets: r.sheets.clone(), cells: vec![], shared: vec![], group: vec![], reload: false, names: vec![(holder, parts.to_vec())], series: vec![], edits: r.edits.clone(), excluded: vec![], lazy: None };
     match run_workbook(&single, &[]) {
         Err(p) => {
             let i = panic_part(r, "defined-name", Some(holder), parts);
@@ -898,7 +956,7 @@ fn judge_name(r: &Resolved, holder: usize, parts: &[(usize, Area)], observed: &O
 }
 
 fn attempt_series(r: &Resolved, holder: usize, parts: &[(usize, Area)]) -> Option<(String, String)> {
-    let single = Resolved { sheets: r.sheets.clone(), cells: vec![], shared: vec![], names: vec![], series: vec![(holder, parts.to_vec())], edits: r.edits.clone(), excluded: vec![], lazy: None };
+    let single = Resolved { sheets: r.sheets.clone(), cells: vec![], shared: vec![], group: vec![], reload: false, names: vec![], series: vec![(holder, parts.to_vec())], edits: r.edits.clone(), excluded: vec![], lazy: None };
     match run_workbook(&single, &[]) {
         Err(p) => {
             let i = panic_part(r, "chart-series", None, parts);
@@ -985,6 +1043,12 @@ fn label(c: &Case, r: &Resolved, obs: &mut Obs) {
             }
         } else if sh == 2 {
             classes.insert("cell:shared-master".into());
+        } else if sh == 3 {
+            classes.insert("cell:shared-member-own-text+view".into());
+        } else if sh == 5 {
+            classes.insert("reload:group-member-written-with-text".into());
+        } else if sh == 6 {
+            classes.insert("reload:group-member-written-empty".into());
         }
         let mut moved = false;
         let mut fixed_tok = false;
@@ -1118,12 +1182,12 @@ fn check_inner(r: &Resolved, obs: &mut Obs) -> Verdict {
     if let Ok(o) = &whole {
         for (i, (host, at, e, b)) in r.cells.iter().enumerate() {
             let sh = r.shared.get(i).copied().unwrap_or(0);
-            if r.lazy.is_some() {
+            if r.lazy.is_some() || r.reload {
                 // the reloaded file must show the generated formula, else the save/load
                 // path (C01/C03) changed it and this cell is not judged here
                 let same = o.cells0[i].as_ref().and_then(|t| lex(t).ok()).map_or(false, |l| first_mismatch(&inputs[i], &l).is_none());
                 if !same {
-                    obs.class("lazy:formula-changed-by-reload");
+                    obs.class(if r.reload { "reload:formula-changed-by-reload" } else { "lazy:formula-changed-by-reload" });
                     continue;
                 }
             }
@@ -1133,6 +1197,17 @@ fn check_inner(r: &Resolved, obs: &mut Obs) -> Verdict {
             };
             let expected = cell_expected(&r, *host, e);
             if let Outcome::Fail { mode, tok_class, detail } = judge_output(&texts[i], &inputs[i], &expected, Ok(Ok(out.clone()))) {
+                if r.reload {
+                    // what the cell is after the reload decides the class
+                    let kind = match sh {
+                        2 => "shared-master",
+                        5 => "shared-member-with-own-text",
+                        6 => "shared-member-without-text",
+                        _ => "ordinary-cell",
+                    };
+                    first_fail = Some((format!("reloaded-{}/{}", kind, mode), detail));
+                    break;
+                }
                 let run = |x: &Expr, bl: &[u8], l: u8, t: u8| attempt_cell(&r, sh, *host, *at, x, bl, l, t);
                 let run_ref = |rn: &RefNode, strip: bool, a: &Area, lower: bool| ref_runner(&r, sh, *host, *at, rn, strip, a, lower);
                 // classify on the isolated cell when it fails alone as well, else by token class
@@ -1140,7 +1215,7 @@ fn check_inner(r: &Resolved, obs: &mut Obs) -> Verdict {
                 let (key, detail) = match alone {
                     // a failure that an ordinary cell with the same text does not show
                     Outcome::Fail { mode, detail, .. } if sh != 0 && !matches!(attempt_cell(&r, 0, *host, *at, e, b, 0, 0), Outcome::Fail { .. }) => {
-                        (format!("shared-formula-{}/{}", if sh == 1 { "child" } else { "master" }, mode), detail)
+                        (format!("shared-formula-{}/{}", ["", "child", "master", "member-with-own-text"][sh.min(3) as usize], mode), detail)
                     }
                     Outcome::Fail { mode, tok_class, detail } => classify(e, b, 0, 0, (mode, tok_class, detail), &run, &run_ref),
                     _ => (format!("{}-with-other-objects/{}", tok_class, mode), detail),
@@ -1212,6 +1287,7 @@ fn subs() -> Vec<Box<dyn DynSub>> {
         Box::new(Sub { name: "defined-names", strategy: names_cases, cases: (1000, 12_000), check, max_shrink_iters: 2500 }),
         Box::new(Sub { name: "chart-series", strategy: series_cases, cases: (600, 8_000), check, max_shrink_iters: 2500 }),
         Box::new(Sub { name: "lazy", strategy: lazy_cases, cases: (500, 8_000), check, max_shrink_iters: 1500 }),
+        Box::new(Sub { name: "reloaded", strategy: reloaded_cases, cases: (400, 6_000), check, max_shrink_iters: 1500 }),
         Box::new(Sub { name: "dirty", strategy: dirty_cases, cases: (400, 5_000), check, max_shrink_iters: 2500 }),
     ]
 }
